@@ -6,6 +6,7 @@ import (
 	"fmt"
 	"os"
 	"path/filepath"
+	"syscall"
 	"testing"
 
 	"github.com/hnakamur/whispertool/cmd"
@@ -53,7 +54,7 @@ func diskVsModel(l Layout, b []byte, m *Model, where string) []Finding {
 	return nil
 }
 
-func runC05History(c HistCase, ev *Evid) (fs []Finding) {
+func runC05History(c HistCase, ev *Evid, tail *F64) (fs []Finding) {
 	h, err := newHistRunner("C05", c.L, c.Now)
 	if err != nil {
 		return []Finding{{Property: "C05", Key: "create-error", Detail: fmt.Sprintf("Create(%s): %v", c.L, err)}}
@@ -178,9 +179,57 @@ func runC05History(c HistCase, ev *Evid) (fs []Finding) {
 			}
 		}
 	}
+	cls := []string{}
+	if tail != nil && h.db != nil {
+		// "After Sync returns successfully the file on disk holds exactly the handle's state" - also for a handle
+		// on a file the process may read but not write. Whether such an Open succeeds is not asserted; IF it does
+		// and an update + Sync on it report success, the value must be on disk.
+		if err := h.db.Sync(); err != nil {
+			return []Finding{h.finding("sync-error", "final Sync: %v", err)}
+		}
+		h.db.Close()
+		h.db = nil
+		before, _ := os.ReadFile(h.path)
+		os.Chmod(filepath.Dir(h.path), 0755)
+		os.Chmod(h.path, 0444)
+		asNobody := syscall.Seteuid(65534) == nil
+		var db *wt.Whisper
+		var oerr, uerr, serr error
+		var pm string
+		if asNobody {
+			db, oerr = openWT(h.path)
+			if oerr == nil {
+				uerr, pm = updateWT(db, -1, h.now, float64(*tail), h.now)
+				if uerr == nil && pm == "" {
+					pm = guard(func() { serr = db.Sync() })
+				}
+				guard(func() { db.Close() })
+			}
+			syscall.Seteuid(0)
+		}
+		os.Chmod(h.path, 0644)
+		switch {
+		case !asNobody:
+			cls = append(cls, "unwritable-tail:cannot-drop-privileges")
+		case pm != "":
+			return []Finding{h.finding("unwritable-panic", "update / Sync on a handle opened on a read-only file panicked: %s", pm)}
+		case oerr != nil:
+			cls = append(cls, "unwritable-tail:open-refused")
+		case uerr != nil || serr != nil:
+			cls = append(cls, "unwritable-tail:write-refused")
+		default:
+			after, _ := os.ReadFile(h.path)
+			step0 := c.L.Archives[0].Step
+			iv := alignDown(h.now, step0)
+			r, err := readArchives(h.path, c.L, iv-step0, iv, h.now) // the window whose first slot is the written interval (C04)
+			if err != nil || r[0].Err != nil || r[0].Nil || len(r[0].S.Values) < 1 || r[0].S.From != iv || !sameF(r[0].S.Values[0], float64(*tail)) {
+				return []Finding{h.finding("sync-succeeded-but-not-on-disk", "a handle opened by an unprivileged user on a mode-0444 file accepted an update (t=%d v=%s) and its Sync returned nil, but another handle does not read the value back (file bytes changed: %v)", h.now, fstr(float64(*tail)), !bytes.Equal(before, after))}
+			}
+			cls = append(cls, "unwritable-tail:written")
+		}
+	}
 	pages := (size + 4095) / 4096
 	nontrivial := syncsWithWrites >= 2 && pendingAtAbandon > 0
-	cls := []string{}
 	if pages > 1 {
 		cls = append(cls, "multi-page-file")
 	}
@@ -232,10 +281,13 @@ func firstDiff(a, b []byte) int {
 
 // C05Case is either a library history or a failing CLI write (the property's last clause).
 type C05Case struct {
-	Kind string      `json:"kind"` // history | cli | partial
-	H    *HistCase   `json:"history,omitempty"`
-	CLI  *C05CLI     `json:"cli,omitempty"`
-	P    *C05Partial `json:"partial,omitempty"`
+	Kind string    `json:"kind"` // history | cli | partial
+	H    *HistCase `json:"history,omitempty"`
+	// UnwritableTail (history): after the history the file is made read-only and opened by an unprivileged
+	// user; if that Open succeeds, one more write + Sync follows (see runC05History)
+	UnwritableTail *F64        `json:"unwritable_tail,omitempty"`
+	CLI            *C05CLI     `json:"cli,omitempty"`
+	P              *C05Partial `json:"partial,omitempty"`
 }
 
 // C05Partial: updates that fail half way (a coarser archive's base interval is damaged on disk, so
@@ -368,7 +420,7 @@ func runC05(c C05Case, ev *Evid) []Finding {
 	if c.Kind == "partial" {
 		return runC05Partial(*c.P, ev)
 	}
-	return runC05History(*c.H, ev)
+	return runC05History(*c.H, ev, c.UnwritableTail)
 }
 
 func runC05CLI(c C05CLI, ev *Evid) (fs []Finding) {
@@ -622,6 +674,9 @@ func TestC05(t *testing.T) {
 				// force one archive across several pages
 				i := rapid.IntRange(0, len(l.Archives)-1).Draw(t, "bigArch")
 				extra := rapid.Int64Range(340, 3000).Draw(t, "bigExtra")
+				if (l.Archives[i].Points+extra)*l.Archives[i].Step > 1<<30 {
+					extra = 0 // retentions stay below 2^30 (valid layouts, non-empty clock domain)
+				}
 				for j := i; j < len(l.Archives); j++ {
 					l.Archives[j].Points += extra
 					if j+1 < len(l.Archives) {
@@ -634,7 +689,12 @@ func TestC05(t *testing.T) {
 				}
 			}
 			h := genHistory(t, l, histGenOpts{MaxOps: 40, FuturePct: 2, StaleNamed: true, Windows: 2, Reopen: true, Abandon: true, SyncHeavy: true})
-			return C05Case{Kind: "history", H: &h}
+			cc := C05Case{Kind: "history", H: &h}
+			if rapid.IntRange(0, 7).Draw(t, "unwritableTail") == 0 {
+				v := F64(genDyadic(t))
+				cc.UnwritableTail = &v
+			}
+			return cc
 		},
 		Run: runC05,
 	})
